@@ -170,6 +170,12 @@ func (f *TF) Add(a, b *Term) *Term {
 	if b.Op == "int" && b.I.Sign() == 0 {
 		return a
 	}
+	if a.Op == "-" && a.Args[1] == b {
+		return a.Args[0]
+	}
+	if b.Op == "-" && b.Args[1] == a {
+		return b.Args[0]
+	}
 	return f.mk(&Term{Op: "+", Sort: SInt, Args: []*Term{a, b}, Lo: addB(a.Lo, b.Lo), Hi: addB(a.Hi, b.Hi)})
 }
 
@@ -189,6 +195,12 @@ func (f *TF) Sub(a, b *Term) *Term {
 	}
 	if a == b {
 		return f.Int(0)
+	}
+	if a.Op == "+" && a.Args[1] == b {
+		return a.Args[0]
+	}
+	if a.Op == "+" && a.Args[0] == b {
+		return a.Args[1]
 	}
 	return f.mk(&Term{Op: "-", Sort: SInt, Args: []*Term{a, b}, Lo: addB(a.Lo, negB(b.Hi)), Hi: addB(a.Hi, negB(b.Lo))})
 }
@@ -448,6 +460,25 @@ func (f *TF) Eq(a, b *Term) *Term {
 		if oka && okb && la != lb {
 			return f.Bool(false)
 		}
+		if ha, ra, hb, rb, kind := sameWidthHeads(f, a, b); kind != "" && (a.Op == "concat" || b.Op == "concat") {
+			switch kind {
+			case "same":
+				return f.Eq(ra, rb)
+			case "dec":
+				return f.And(f.Eq(ha.Args[0], hb.Args[0]), f.Eq(ra, rb))
+			case "const":
+				n := len(ha.S)
+				if len(hb.S) < n {
+					n = len(hb.S)
+				}
+				if ha.S[:n] != hb.S[:n] {
+					return f.Bool(false)
+				}
+				if len(ha.S) == len(hb.S) {
+					return f.Eq(ra, rb)
+				}
+			}
+		}
 	}
 	if a.id > b.id {
 		a, b = b, a
@@ -607,12 +638,71 @@ func (f *TF) ToInt(s *Term) *Term { // -1 if not all digits / empty
 	return f.mk(&Term{Op: "toint", Sort: SInt, Args: []*Term{s}, Lo: bi(-1)})
 }
 
+// decWidth: number of decimal digits of a non-negative int term, if fixed by its interval.
+func decWidth(t *Term) (int, bool) {
+	if t.Lo == nil || t.Hi == nil || t.Lo.Sign() < 0 {
+		return 0, false
+	}
+	wl, wh := len(t.Lo.String()), len(t.Hi.String())
+	return wl, wl == wh
+}
+
+func splitHead(f *TF, t *Term) (*Term, *Term) {
+	if t.Op == "concat" {
+		return t.Args[0], f.Concat(t.Args[1:]...)
+	}
+	return t, f.Str("")
+}
+
+// sameWidthHeads: both strings begin with a fixed-width segment of equal
+// width (decimal numbers of equal digit count, or the same term).
+func sameWidthHeads(f *TF, a, b *Term) (ha, ra, hb, rb *Term, kind string) {
+	ha, ra = splitHead(f, a)
+	hb, rb = splitHead(f, b)
+	if ha == hb {
+		return ha, ra, hb, rb, "same"
+	}
+	if ha.Op == "fromint" && hb.Op == "fromint" {
+		wa, oka := decWidth(ha.Args[0])
+		wb, okb := decWidth(hb.Args[0])
+		if oka && okb && wa == wb {
+			return ha, ra, hb, rb, "dec"
+		}
+	}
+	if ha.Op == "sconst" && hb.Op == "sconst" && len(ha.S) > 0 && len(hb.S) > 0 {
+		return ha, ra, hb, rb, "const"
+	}
+	return nil, nil, nil, nil, ""
+}
+
 func (f *TF) StrLt(a, b *Term) *Term {
 	if a.Op == "sconst" && b.Op == "sconst" {
 		return f.Bool(a.S < b.S)
 	}
 	if a == b {
 		return f.Bool(false)
+	}
+	if ha, ra, hb, rb, kind := sameWidthHeads(f, a, b); kind != "" {
+		switch kind {
+		case "same":
+			if n, ok := strConstLen(ha); ok && n >= 0 || ha.Op == "fromint" {
+				return f.StrLt(ra, rb)
+			}
+		case "dec":
+			x, y := ha.Args[0], hb.Args[0]
+			return f.Or(f.Lt(x, y), f.And(f.Eq(x, y), f.StrLt(ra, rb)))
+		case "const":
+			n := len(ha.S)
+			if len(hb.S) < n {
+				n = len(hb.S)
+			}
+			if ha.S[:n] != hb.S[:n] {
+				return f.Bool(ha.S[:n] < hb.S[:n])
+			}
+			if len(ha.S) == len(hb.S) {
+				return f.StrLt(ra, rb)
+			}
+		}
 	}
 	return f.mk(&Term{Op: "str.<", Sort: SBool, Args: []*Term{a, b}})
 }
